@@ -77,6 +77,54 @@ func pipelineMode(in []byte, sched []int, eofData, light bool) (stage string, er
 		}
 	}
 
+	// the zero values of the parser and renderer types are usable: an
+	// InlineParser without a ReferenceMatcher, a renderer without a reference map
+	stage = "NextBlock + zero-value InlineParser.Rewrite + zero-value HTMLRenderer"
+	{
+		zp := cm.NewBlockParser(bytes.NewReader(in))
+		var zblocks []*cm.RootBlock
+		for {
+			b, e := zp.NextBlock()
+			if e != nil {
+				break
+			}
+			new(cm.InlineParser).Rewrite(b)
+			zblocks = append(zblocks, b)
+		}
+		var zb bytes.Buffer
+		if e := new(cm.HTMLRenderer).Render(&zb, zblocks); e != nil {
+			return stage, fmt.Errorf("Render returned %v", e)
+		}
+		if e := cm.RenderHTML(&zb, zblocks, nil); e != nil {
+			return stage, fmt.Errorf("RenderHTML with a nil reference map returned %v", e)
+		}
+		if e := format.Format(&zb, zblocks); e != nil {
+			return stage, fmt.Errorf("Format returned %v", e)
+		}
+		// blocks that were never rewritten (block structure only) render and format too
+		up := cm.NewBlockParser(bytes.NewReader(in))
+		var ublocks []*cm.RootBlock
+		for {
+			b, e := up.NextBlock()
+			if e != nil {
+				break
+			}
+			ublocks = append(ublocks, b)
+		}
+		if !light {
+			stage = "Render/Format/Walk of blocks without inline parsing"
+			if e := cm.RenderHTML(&zb, ublocks, nil); e != nil {
+				return stage, fmt.Errorf("RenderHTML returned %v", e)
+			}
+			if e := format.Format(&zb, ublocks); e != nil {
+				return stage, fmt.Errorf("Format returned %v", e)
+			}
+			for _, b := range ublocks {
+				cm.Walk(b.AsNode(), &cm.WalkOptions{Pre: func(c *cm.Cursor) bool { return true }})
+			}
+		}
+	}
+
 	for which, set := range [][]*cm.RootBlock{blocks, sblocks} {
 		rm := refs
 		if which == 1 {
@@ -386,7 +434,7 @@ func safePropLocal(c harness.Case) (r harness.Result) {
 	return prop(c)
 }
 
-const rule = "every stage (Parse; NextBlock+Extract+Rewrite under a G5 schedule; Render under 3 soft-break x IgnoreRaw x FilterTag{nil,GFM,always,never}; AppendBlock; RenderHTML; Format on Buffer and plain Writer; Walk; walks cut short by Pre/Post returning false followed by Format, RenderHTML and Walk again; every accessor) under recover and a watchdog; non-trivial = input has invalid UTF-8, NUL, a lone CR, an unterminated construct at EOF (open bracket, odd backtick count, open comment, odd fence count) or parses to depth >= 16"
+const rule = "every stage (Parse; NextBlock+Extract+Rewrite under a G5 schedule; zero-value InlineParser and HTMLRenderer, nil reference map, blocks without inline parsing; Render under 3 soft-break x IgnoreRaw x FilterTag{nil,GFM,always,never}; AppendBlock; RenderHTML; Format on Buffer and plain Writer; Walk; walks cut short by Pre/Post returning false followed by Format, RenderHTML and Walk again; every accessor) under recover and a watchdog; non-trivial = input has invalid UTF-8, NUL, a lone CR, an unterminated construct at EOF (open bracket, odd backtick count, open comment, odd fence count) or parses to depth >= 16"
 
 func plan() harness.Plan {
 		return harness.Plan{Prop: "C04", Checks: []harness.Check{
